@@ -842,6 +842,34 @@ func (x *Exec) assignInfo() *assignInfo {
 	return ai
 }
 
+// inMemory: the identifier denotes a variable that lives in memory (go/ssa
+// gave it an Alloc): its name keeps denoting the cell (bound at the Alloc)
+// and the current contents are read back through it.
+func (x *Exec) inMemory(id *ast.Ident) bool {
+	info := x.v.infos[x.fn.Pkg.Pkg.Path()]
+	if info == nil {
+		return false
+	}
+	o := info.Defs[id]
+	if o == nil {
+		o = info.Uses[id]
+	}
+	if o == nil {
+		return false
+	}
+	if x.allocPos == nil {
+		x.allocPos = map[token.Pos]bool{}
+		for _, b := range x.fn.Blocks {
+			for _, in := range b.Instrs {
+				if a, ok := in.(*ssa.Alloc); ok && a.Pos().IsValid() {
+					x.allocPos[a.Pos()] = true
+				}
+			}
+		}
+	}
+	return x.allocPos[o.Pos()]
+}
+
 func (x *Exec) debugRef(s *State, t *ssa.DebugRef) {
 	ai := x.assignInfo()
 	expr := ast.Unparen(t.Expr)
@@ -872,8 +900,9 @@ func (x *Exec) debugRef(s *State, t *ssa.DebugRef) {
 			}
 			return nil
 		}
+		inMemory := x.inMemory
 		if len(ids) == 1 && kindOf(v.T) != kTuple {
-			if id := ids[0]; id != nil {
+			if id := ids[0]; id != nil && !inMemory(id) {
 				if vt := typeOf(id); vt != nil && v.T != nil && types.Identical(vt, v.T) {
 					s.setName(id.Name, v, false)
 				}
@@ -882,7 +911,7 @@ func (x *Exec) debugRef(s *State, t *ssa.DebugRef) {
 		}
 		if kindOf(v.T) == kTuple && len(v.F) == len(ids) {
 			for i, id := range ids {
-				if id == nil {
+				if id == nil || inMemory(id) {
 					continue
 				}
 				f := v.F[i]
@@ -920,6 +949,10 @@ func (x *Exec) debugRef(s *State, t *ssa.DebugRef) {
 		// the stored value: an ordinary binding (below)
 	}
 	// 2. a read of the variable
+	if !t.IsAddr && x.inMemory(id) {
+		// a variable that lives in memory keeps denoting its cell
+		return
+	}
 	if !ai.noBind[id] {
 		if _, isParam := x.params[id.Name]; isParam {
 			if _, ok := t.X.(*ssa.Parameter); ok {
